@@ -120,6 +120,52 @@ func boundedPush(v ssa.Value) (*ssa.Call, bool) {
 			}
 		}
 	}
+	if grow == 0 {
+		// insertion form: if len(list) >= max { list = list[:len(list)-1] }; slices.Insert(list, 0, n):
+		// every path to the insert either saw len(list) < max or dropped the last element
+		for _, b := range f.Blocks {
+			for _, in := range b.Instrs {
+				ic, ok := in.(*ssa.Call)
+				if !ok || core.CalleeID(ic) != "slices.Insert" || len(ic.Call.Args) < 2 {
+					continue
+				}
+				if k, isC := core.ConstInt(ic.Call.Args[1]); !isC || k != 0 {
+					return c, false
+				}
+				if !core.Derives(ic.Call.Args[0], func(v ssa.Value) bool { return v == ssa.Value(list) }, core.DeriveOpts{}) {
+					return c, false
+				}
+				room := core.AnyFact(func(fc core.Fact) bool {
+					return core.CmpFact(fc, func(op token.Token, x, y ssa.Value) bool {
+						return op == token.LSS && core.IsLenOf(x, func(v ssa.Value) bool { return v == ssa.Value(list) }) && y == ssa.Value(max)
+					})
+				})
+				trimmed := core.BlocksWith(f, func(i2 ssa.Instruction) bool {
+					sl, ok := i2.(*ssa.Slice)
+					if !ok || sl.X != ssa.Value(list) || sl.Low != nil || sl.High == nil {
+						return false
+					}
+					bo, ok := sl.High.(*ssa.BinOp)
+					if !ok || bo.Op != token.SUB || !core.IsLenOf(bo.X, func(v ssa.Value) bool { return v == ssa.Value(list) }) {
+						return false
+					}
+					k, isC := core.ConstInt(bo.Y)
+					return isC && k == 1
+				})
+				tb := ic.Block()
+				if trimmed[tb] {
+					return c, true
+				}
+				w := core.CutReach(core.CutSpec{Fn: f,
+					Cut:    func(b2 *ssa.BasicBlock, i int) bool { return room(core.EdgeFacts(b2, i)) || trimmed[b2.Succs[i]] },
+					Target: func(prev, b2 *ssa.BasicBlock) bool { return b2 == tb }})
+				if tb == f.Blocks[0] {
+					return c, false
+				}
+				return c, w == nil
+			}
+		}
+	}
 	return c, grow > 0
 }
 
